@@ -39,6 +39,29 @@ func DrawSpec(t *rapid.T, label string) *Spec {
 	return &Spec{Kind: "regex", Text: rapid.SampledFrom([]string{"/^a+$/", "/[0-9]{2,3}/ tail", "/a\\/b/", "/x|y/", "abc", "/(", "/[a-z]{8}/", "/[a-z]{1}[0-9]?[A-Z]*(x|y|z)+/", "/\\Bfoo/"}).Draw(t, label+"Regex")}
 }
 
+// DrawTwinSpecs: two roots with the same text and the same shared type objects (@key, an alias used
+// as key-shortcut type, and @item, an object with a {type: "@id"} rule) which define the names those
+// types refer to (@ref, @id) differently: what a shared type means is decided by each root's own
+// table of types, never by the root that happened to use the type object first.
+func DrawTwinSpecs(t *rapid.T, label string) []*Spec {
+	root := rapid.SampledFrom([]string{"{\n  @key: 1, // {optional: true}\n  \"item\": @item // {optional: true}\n}", "{\n  \"item\": @item\n}", "{\n  @key: 1\n}"}).Draw(t, label+"Root")
+	shared := []lib.Named{{Name: "@key", Text: "@ref"}, {Name: "@item", Text: "{\n  \"id\": 1 // {type: \"@id\"}\n}"}}
+	defs := [][]lib.Named{
+		{{Name: "@ref", Text: "\"abc\" // {minLength: 1}"}, {Name: "@id", Text: "5 // {min: 0}"}},
+		{{Name: "@ref", Text: "12"}, {Name: "@id", Text: "\"s\""}},
+		{{Name: "@ref", Text: "\"k\" // {regex: \"^k\"}"}, {Name: "@id", Text: "1 // {max: 0}"}},
+	}
+	idx := rapid.Permutation([]int{0, 1, 2}).Draw(t, label+"Defs")[:2]
+	var out []*Spec
+	for _, i := range idx {
+		sp := &Spec{Kind: "schema", Group: label + "twins", ShareOnly: []string{"@key", "@item"}}
+		sp.Schema = lib.Spec{Schema: root, Types: append(append([]lib.Named{}, shared...), defs[i]...)}
+		sp.Docs = []string{`{"abc":1,"item":{"id":1}}`, `{"item":{"id":"x"}}`, `{"kk":1}`, `{}`}
+		out = append(out, sp)
+	}
+	return out
+}
+
 // DrawSchemaSpec: family 0 type graph, 1 ruled tree, 2 reference graph (recursion, missing types),
 // 3 a root that inherits (allOf) from types which themselves refer to further types, 4 regex
 // types, 5 types wired to each other.
